@@ -80,7 +80,7 @@ def drive (body impl : String) : Verdict :=
         let ev0 := co.events.length
         let (g0, l0) := (co.got.length, co.log.length)
         let (th', co', res) := resume th co p
-        let mout := s!"res={showRes res} st={showSt co'.state} ev={joinWith ";" ((co'.events.drop ev0).map showEv)} got={joinWith "," ((co'.got.drop g0).map toString)} log={joinWith "," (co'.log.drop l0)}"
+        let mout := s!"res={showRes res} st={showSt co'.state} ev={joinWith ";" ((co'.events.drop ev0).map showEv)} got={joinWith "," ((co'.got.drop g0).map toString)} log={joinWith "," (co'.log.drop l0)} cur=0"
         -- specs on the implementation's own output `io`
         let o := obs.getD c {}
         let iev := kvOf io "ev"
@@ -101,7 +101,9 @@ def drive (body impl : String) : Verdict :=
         -- C08: the value passed to resume is what the body receives (exactly one per resume that runs the body)
         let f08 : List String :=
           (if igot ≠ "" ∧ igot ≠ toString p then [s!"[param] resume {ent}: body received {igot}, resumed with {p}"] else []) ++
-          (if ires == "PANIC" ∧ res ≠ .panic then [s!"[unwound] resume {ent} unwound into the caller"] else [])
+          (if ires == "PANIC" ∧ res ≠ .panic then [s!"[unwound] resume {ent} unwound into the caller"] else []) ++
+          -- outside coroutines the thread has no current suspender — also after a body panicked
+          (if (words io).contains "cur=1" then [s!"[stale-current-suspender] after resume {ent} ({ires}) the thread still has a current suspender although no coroutine is running"] else [])
         -- C09: a plain suspend reports time 0 and not cancelled; a timed one its own time
         let f09 : List String :=
           match co.prog.head?, (if co.done ∨ co.inCancel then none else some ()) with
